@@ -205,7 +205,7 @@ func dependents(ex *Expect, t *RTask) map[*RTask]bool {
 	return dep
 }
 
-func failureOracle(inc *Inc, ex *Expect, victim *RTask, what string) Verdict {
+func failureOracle(inc *Inc, ex *Expect, victim *RTask, what string, others ...*RTask) Verdict {
 	s := inc.Sim
 	if v, ok := inconclusiveEnd(inc); ok {
 		return v
@@ -243,9 +243,18 @@ func failureOracle(inc *Inc, ex *Expect, victim *RTask, what string) Verdict {
 		}
 	}
 	// whatever did get finalized must still be correct (and never from the victim)
+	skip := map[*RTask]bool{}
+	for d := range dep {
+		skip[d] = true
+	}
+	for _, ov := range others {
+		for d := range dependents(ex, ov) {
+			skip[d] = true
+		}
+	}
 	for p, e := range files {
-		if o := ex.Owner[p]; o != nil && dep[o] {
-			continue // descendants of the victim (only reachable through a streamed output): nothing is promised
+		if o := ex.Owner[p]; o != nil && skip[o] {
+			continue // descendants of a failing task (only reachable through a streamed output): nothing is promised
 		}
 		if want, ok := ex.Files[p]; ok && e.Kind == simrt.KFile && string(e.Data) != string(want) {
 			return Viol("wrong-content", what, "after the failure, finalized output %s has content %q, reference %q", p, clip(e.Data), clip(want))
@@ -341,6 +350,11 @@ func init() {
 				if len(c2) > 0 {
 					victim2 = c2[c.Tape.Choose(simrt.StFault, len(c2), 0)]
 					fault2 = &FaultSpec{Key: victim2.Key, Mode: simrt.FailMode(1 + c.Tape.Choose(simrt.StFault, 5, 0)), Arg: c.Tape.Choose(simrt.StFault, 6, 0)}
+					for _, p := range victim2.Outs {
+						if ex.StreamPaths[Abs(p)] && fault2.Mode == simrt.FailOmit {
+							fault2.Mode = simrt.FailExitBefore
+						}
+					}
 					what += " (and " + fault2.Mode.String() + " of " + victim2.Key + ")"
 					c.Fault("second-failure")
 				}
@@ -349,9 +363,13 @@ func init() {
 			inc := RunInc(w, c.Tape, nil, 0, IncOpts{KillAt: -1, Strategy: strategyOf(c.Tape), Trace: c.Trace, Fault: fault, Fault2: fault2})
 			c.Absorb(inc)
 			if victim2 != nil && fault2.Hit {
-				if v := failureOracle(inc, ex, victim2, what); v.Status != "ok" {
+				if v := failureOracle(inc, ex, victim2, what, victim); v.Status != "ok" {
 					return v
 				}
+			}
+			var others []*RTask
+			if victim2 != nil {
+				others = append(others, victim2)
 			}
 			if fault != nil && !fault.Hit {
 				// the victim was never started - only legal if something else went wrong first
@@ -360,7 +378,7 @@ func init() {
 				}
 			}
 			c.Tasks++ // the failing command counts as work
-			return failureOracle(inc, ex, victim, what)
+			return failureOracle(inc, ex, victim, what, others...)
 		}})
 }
 
